@@ -92,3 +92,18 @@ Definition run_batched (tbl : itbl) (sp : qspec) (st : settings QcNum) (rows : l
   | Ok m => inr (reads_in_range QcNum sp (cfg_channels QcNum sp) (cfg_samples QcNum sp) (cfg_modifiers QcNum sp) m,
                  qoutss (expected_actualdata_batched QcNum q_interp_add (interp_mul_q tbl) sp st m rows))
   end.
+
+(* ---- premises of the refinement theorem, evaluated per generated model ---- *)
+Require Import PV.RefineTop.
+Definition run_layout (sp : qspec) : string :=
+  match build QcNum sp with
+  | Err e => err_code e
+  | Ok m => if layout_okb QcNum sp m then "layout-ok" else "layout-NOT-ok" end.
+
+(* the positive per-sample clip on a sample absent from a channel: Impl <> Ref (known finding) *)
+Definition clip_witness_spec : qspec :=
+  Build_spec (N:=QcNum)
+    [ Build_channel (N:=QcNum) "A" [ Build_sample (N:=QcNum) "s1" [mkq 10 1] [Build_modifier (N:=QcNum) "mu" Normfactor (@MDNone QcNum)] ];
+      Build_channel (N:=QcNum) "B" [ Build_sample (N:=QcNum) "s2" [mkq 20 1] [] ] ] [] None.
+Definition clip_witness_st : settings QcNum := Build_settings QcNum "code4" "code4p" (Some (mkq 1 1)) None.
+Definition clip_witness_pars : list Qc := [mkq 1 1].
